@@ -114,6 +114,8 @@ class Gen:
                 d["E"] = self.num(-5, 50)
         if c == "set_axis" and r.random() < 0.3:
             d["E"] = self.num(0, 5)
+        if r.random() < 0.12:
+            d["lower"] = True              # move(x=1, f=100, s=5): lower-case parameter letters
         return d
 
     def interlock(self):
@@ -144,8 +146,14 @@ class Gen:
                 d[r.choice(["S", "R"])] = self.value(name, 0, 300)
         elif c in ("pause", "stop", "emergency_halt"):
             d.update(flag=r.random() < 0.5)
+            if c == "emergency_halt":      # also non-ASCII messages (added after seed C06f: an ASCII-only write path)
+                d["text"] = r.choice(["stop", "stop", "85\u00b0C reached", "\u00dcbertemperatur", "halt \u4e2d\u6587"])
         elif c == "set_tool_power":
             d.update(val=self.value("tool-power", 0, 1000))
+        if c in ("tool_on", "power_on", "coolant_on") and r.random() < 0.1:
+            d["fault"] = True              # the device link fails on this statement (the recording writer has it by then)
+        if c == "halt" and r.random() < 0.2:
+            d["lower"] = True              # halt(..., s=210): parameter letters are case-insensitive
         return d
 
     def modal(self):
@@ -278,6 +286,15 @@ class Gen:
 
     def hooks(self):
         r = self.r
+        # `with g.move_hook(h):` blocks with registrations changed inside (added after seed C20f: the hook list in force on
+        # entry was put back on exit)
+        if getattr(self, "mh_open", False):
+            if r.random() < 0.35:
+                self.mh_open = False
+                return {"call": "mh_exit"}
+        elif r.random() < 0.08:
+            self.mh_open = True
+            return {"call": "mh_enter"}
         if not self.hook or r.random() < 0.2:
             self.hook = True
             return {"call": "add_probe_hook"}
